@@ -156,6 +156,10 @@ let sop_of_string (t : string) : sop =
   | [ "c"; i ] -> SClone (nat_of_int (int_of_string i))
   | [ "y"; a; b ] -> SSync (nat_of_int (int_of_string a), nat_of_int (int_of_string b))
   | _ -> failwith "bad server op"
+let fnv_bytes (b : n list) : string =
+  let h = ref 0xcbf29ce484222325L in
+  List.iter (fun x -> h := Int64.mul (Int64.logxor !h (Int64.of_int (int_of_n x))) 0x100000001b3L) b;
+  Printf.sprintf "%016Lx" !h
 let sres_string = function
   | REval (Inr (o, pr)) -> "ok:" ^ hex_of_bytes o ^ ":" ^ proof_hex pr
   | REval (Inl e) -> "E:" ^ perr_name e
@@ -303,8 +307,15 @@ let dispatch (w : string list) : string =
       match pp_server_new grp (z_of_hex sk) (bytes_of_hex k0) (bytes_of_hex k1) (bytes_of_hex s0) (bytes_of_hex s1) mdl with
       | Inl e -> "new-E:" ^ perr_name e
       | Inr srv ->
-          let w, rs = srv_run grp [ srv ] (List.map sop_of_string ops) in
-          String.concat " " (List.map sres_string rs) ^ " | " ^ String.concat " " (List.map server_string w))
+          let w = ref [ srv ] in
+          let outs = List.map (fun o ->
+              let exported = (match o with
+                | SSync (src, _) -> (match nth_error !w src with Some s -> "#" ^ fnv_bytes (server_to_bincode s) | None -> "")
+                | _ -> "") in
+              let w', r = srv_step grp !w o in
+              w := w';
+              sres_string r ^ exported) (List.map sop_of_string ops) in
+          String.concat " " outs ^ " | " ^ String.concat " " (List.map server_string !w))
   | [ "cl.blind"; input; r ] -> hex_of_bytes (pp_client_blind grp (bytes_of_hex input) (z_of_hex r))
   | [ "cl.h2g"; input ] -> hex_of_bytes (pp_hash_to_group grp (bytes_of_hex input))
   | [ "cl.unblind"; p; r ] -> out_bytes (client_unblind grp (bytes_of_hex p) (z_of_hex r))
